@@ -71,6 +71,18 @@ class Program:
                 out.append(k)
         return out
 
+    def impl_methods_for(self, trait, self_ty):
+        """Methods of the local `impl trait for self_ty` (generic arguments ignored)."""
+        idx = self.__dict__.setdefault("_impl_idx", None)
+        if idx is None:
+            idx = defaultdict(list)
+            for k, f in self.fns.items():
+                imp = f.get("impl") or {}
+                if imp.get("trait"):
+                    idx[(imp["trait"], re.sub(r"<.*$", "", imp.get("self", "")))].append(k)
+            self._impl_idx = idx
+        return idx.get((trait, re.sub(r"<.*$", "", self_ty)), [])
+
     def closures_of(self, key):
         return [k for k, f in self.fns.items() if f.get("root") == key or f.get("parent") == key]
 
@@ -102,6 +114,12 @@ class Program:
                 if tgt:
                     cg[k].add(tgt)
                     self.call_sites[tgt].append((k, bb, t))
+                # call-backs: the callee (std or a local generic) may call the local impl of a trait it has a bound for
+                # (only where the callee's body is not analysed itself, or is generic over the bounded type)
+                if tgt is None or self.fns[tgt].get("generics"):
+                    for (st, tr) in c.get("bounds") or []:
+                        for m in self.impl_methods_for(tr, st):
+                            cg[k].add(m)
             # closures created here, fn items referenced as values
             for (i, j, s) in b.stmts():
                 if s["k"] != "assign":
@@ -124,6 +142,8 @@ class Program:
         return cg
 
     def reach(self, entries, foreign_trait_impls=True):
+        """Closure of the call graph (direct calls, dyn fan-out, closures / fn items created, and trait call-backs through the
+        callee's bounds).  `foreign_trait_impls` is kept for callers and ignored: call-backs are exact now."""
         cg = self.callgraph()
         seen = set()
         stack = list(entries)
@@ -133,21 +153,6 @@ class Program:
                 continue
             seen.add(x)
             stack.extend(cg[x])
-            if foreign_trait_impls and not stack:
-                # local impls of foreign traits are called back by std: reachable when Self is used
-                types = set()
-                for s in seen:
-                    for l in self.fns[s]["mir"]["locals"]:
-                        types.add(l["ty"])
-                blob = " ".join(types)
-                for k, f in self.fns.items():
-                    if k in seen:
-                        continue
-                    imp = f.get("impl") or {}
-                    if imp.get("trait") and not imp.get("trait_local"):
-                        st = re.sub(r"<.*$", "", imp.get("self", ""))
-                        if st and st in blob:
-                            stack.append(k)
         return seen
 
     # ---- roles
